@@ -362,6 +362,15 @@ func dedentLoopShape(w *World, lx *lexerModel, pop *ast.CallExpr) bool {
 		return strings.Contains(x.str(e), "."+lx.measure.Decl.Name.Name+"(")
 	}
 	isPrev := func(e ast.Expr) bool {
+		// a call of a lexer method that is "top of the indent stack, or 0 when it is empty"
+		if call, ok := unparen(e).(*ast.CallExpr); ok {
+			if callee := calleeOf(info, call); callee != nil {
+				if g := w.byObj[callee]; g != nil && topOrZero(w, lx, g) {
+					return true
+				}
+			}
+			return false
+		}
 		id := identOf(e)
 		if id == nil {
 			return false
@@ -523,4 +532,59 @@ func fullLengthSlice(w *World, f *Func, e ast.Expr, depth int) (bool, string) {
 		return false, "a re-slice " + exprStr(x)
 	}
 	return false, exprStr(e)
+}
+
+// topOrZero: the function's body is `if S.Size() > 0 { return S.Peek() }; return 0` on the indent stack (in either
+// arrangement of the two returns): its result is 0 exactly when the stack is empty (widths on the stack are positive).
+func topOrZero(w *World, lx *lexerModel, g *Func) bool {
+	if g.Body == nil || g.Sig().Params().Len() != 0 || g.Sig().Results().Len() != 1 {
+		return false
+	}
+	info := g.Pkg.TypesInfo
+	e := w.ent(g)
+	okAll, nret, sawPeek, sawZero := true, 0, false, false
+	walkNoLit(g.Body, func(n ast.Node) bool {
+		switch x := n.(type) {
+		case *ast.ReturnStmt:
+			nret++
+			if len(x.Results) != 1 {
+				okAll = false
+				return true
+			}
+			if tv, ok := info.Types[x.Results[0]]; ok && tv.Value != nil && tv.Value.ExactString() == "0" {
+				// 0 only where the stack is known empty
+				var sizeX ast.Expr
+				walkNoLit(g.Body, func(q ast.Node) bool {
+					if call, ok := q.(*ast.CallExpr); ok {
+						if name, on := methodCallOn(info, call, lx.fIndents); on && name == "Size" {
+							sizeX = unparen(call.Fun).(*ast.SelectorExpr).X
+						}
+					}
+					return true
+				})
+				if sizeX == nil {
+					okAll = false
+					return true
+				}
+				at := site{pos: x.Pos(), anc: x}
+				kc := keyCtx{e: e, s: &at}
+				if ok, _ := e.Prove(x, Not{gtAtom(linForm{terms: map[string]int64{kc.key(sizeX) + ".Size()": 1}}, 0)}); !ok {
+					okAll = false
+				}
+				sawZero = true
+				return true
+			}
+			if call, ok := unparen(x.Results[0]).(*ast.CallExpr); ok {
+				if name, on := methodCallOn(info, call, lx.fIndents); on && name == "Peek" {
+					sawPeek = true
+					return true
+				}
+			}
+			okAll = false
+		case *ast.AssignStmt, *ast.IncDecStmt, *ast.ForStmt, *ast.RangeStmt, *ast.GoStmt, *ast.DeferStmt:
+			okAll = false
+		}
+		return true
+	})
+	return okAll && nret == 2 && sawPeek && sawZero
 }
